@@ -310,7 +310,57 @@ func c04MutateSchema(r *rng, root *c04JNode) string {
 		}
 		return "#"
 	}
-	switch r.intn(34) {
+	switch r.intn(36) {
+	case 34, 35: // a union of references to structs that share constant fields of any scalar type
+		if defs != nil {
+			cname := pick(r, []string{"apiVersion", "enabled", "kind", "type", "v"})
+			ctype := pick(r, []string{"string", "integer", "boolean", "number"})
+			mk := func(i int) *c04JNode {
+				var cv *c04JNode
+				switch ctype {
+				case "string":
+					cv = c04JStr(fmt.Sprintf("v%d", i))
+				case "boolean":
+					cv = c04JBool(i%2 == 0)
+				case "number":
+					cv = c04JNum(fmt.Sprintf("%d.5", i))
+				default:
+					cv = c04JNum(fmt.Sprintf("%d", i))
+				}
+				konst := c04JObj("type", c04JStr(ctype), "const", cv)
+				if prefix == "#/components/schemas/" { // OpenAPI 3.0 has no const: a one-value enum / pattern
+					if ctype == "string" {
+						konst = c04JObj("type", c04JStr("string"), "pattern", c04JStr(fmt.Sprintf("^v%d$", i)))
+					} else {
+						konst = c04JObj("type", c04JStr(ctype), "enum", c04JArr(cv))
+					}
+				}
+				props := c04JObj(cname, konst, "payload", c04JObj("type", c04JStr("string")))
+				if r.chance(40) {
+					props.set("kind", c04JObj("type", c04JStr("string"), "const", c04JStr(fmt.Sprintf("k%d", i)), "pattern", c04JStr(fmt.Sprintf("^k%d$", i))))
+				}
+				return c04JObj("type", c04JStr("object"), "required", c04JArr(c04JStr(cname)), "properties", props)
+			}
+			nb := 2 + r.intn(2)
+			refs := c04JArr()
+			for i := 0; i < nb; i++ {
+				dn := fmt.Sprintf("Variant%d", i)
+				defs.set(dn, mk(i))
+				refs.vals = append(refs.vals, c04JObj("$ref", c04JStr(prefix+dn)))
+			}
+			u := c04JObj(pick(r, []string{"oneOf", "anyOf"}), refs)
+			if prefix == "#/components/schemas/" && r.chance(30) {
+				u.set("discriminator", c04JObj("propertyName", c04JStr(cname)))
+			}
+			if pr := n.get("properties"); pr != nil && pr.kind == "obj" {
+				pr.set("variant", u)
+			} else {
+				defs.set("Variants", u)
+				n.set("properties", c04JObj("variant", c04JObj("$ref", c04JStr(prefix+"Variants"))))
+				n.set("type", c04JStr("object"))
+			}
+			return "union-of-struct-refs:" + cname + ":" + ctype
+		}
 	case 0: // delete a key
 		if len(n.keys) > 0 {
 			k := pick(r, n.keys)
